@@ -121,6 +121,8 @@ struct Net {
     /// during a silence the datagrams for the client are not dropped but arrive from another source port of the relay's host: a
     /// client transport only listens to the address it is talking to, so for the client that is silence all the same
     misroute: bool,
+    /// seconds the clients' clocks are ahead of the server's
+    client_skew: u64,
     /// RV_DEBUG: per-tick state on stderr (replaying a case by hand)
     debug: bool,
     /// the server's part of the next tick is given this duration instead of the tick length (a frame that took very long)
@@ -168,7 +170,8 @@ impl Net {
             }, Some(&ud), &key(1)).map_err(|e| Fail::new("token", e.to_string()))?;
             ClientAuthentication::Secure { connect_token: token }
         };
-        let transport = NetcodeClientTransport::new(self.now, auth, csock).map_err(|e| Fail::new("client_transport", e.to_string()))?;
+        let client_clock = if self.unsecure { self.now } else { self.now + Duration::from_secs(self.client_skew) };
+        let transport = NetcodeClientTransport::new(client_clock, auth, csock).map_err(|e| Fail::new("client_transport", e.to_string()))?;
         let mut client = RenetClient::new(stack_config(false));
         if self.aged {
             client.verif_set_packet_sequence(1 << 40);
@@ -650,7 +653,17 @@ impl Property for C20 {
         vec!["relay_corrupt", "relay_replay", "relay_drop", "relay_dup", "relay_delay", "client_disconnect", "transport_disconnect", "server_disconnect", "disconnect_all", "timeout_by_silence", "gentle_case", "reconnect", "event_connected", "event_disconnected", "e2e_messages", "poison_to_client", "poison_to_server", "server_msg_layer_disconnect", "client_msg_layer_disconnect", "silent_first_address", "unsecure_authentication", "local_client", "limit_changed", "aged_counters", "unreachable_first_address", "second_object_same_id", "sent_while_connecting", "server_long_frame", "short_lived_tokens", "misrouted_during_silence", "one_way_silence", "twin_objects_same_id"]
     }
     fn run_choices(&self, ctx: &mut Ctx) -> Outcome {
-        renetcode::verif::set_rng_seed(Some(ctx.src.u16() as u64 | 1));
+        let seed16 = ctx.src.u16() as u64;
+        renetcode::verif::set_rng_seed(Some(seed16 | 1));
+        // the clients' clocks differ from the server's (and the token issuer's) in some cases: a netcode client only uses differences
+        // of its own clock. Not in the Unsecure mode, where the client stamps its own token with its own clock.
+        let client_skew = match (seed16 >> 2) % 8 {
+            0..=3 => 0u64,
+            4 => 120,
+            5 => 1_790_000_000,
+            6 => 7,
+            _ => 3600,
+        };
         let front = sock()?;
         let front_addr = front.local_addr().unwrap();
         let ssock = sock()?;
@@ -701,6 +714,7 @@ impl Property for C20 {
             aged,
             short_tokens,
             misroute,
+            client_skew,
             debug: std::env::var("RV_DEBUG").is_ok(),
             server_dt_once: None,
             timeout_s,
